@@ -6,6 +6,17 @@
 // eth2wrap.DutiesCache sits between the scheduler and the scripted node, "nocache": feature DisableDutiesCache).
 // Advance steps move a clockwork.FakeClock to an absolute time (ms after genesis).
 //
+// Feature flags fetch_att_on_block / fetch_att_on_block_with_delay (Cfg "feat": "off" | "on" | "delay" | "both") and SSE
+// head events (step {"ev":"Head","slot":n}: Scheduler.HandleHeadEvent is called at that point of the schedule; Cfg "hs":
+// [{"at":s,"slot":n}]: it is called from inside schedSlotFunc of slot s, i.e. after the tick of s and before
+// scheduleSlot(s) has done anything; Cfg "fo": the fetcher's FetchOnly is registered).  With a flag on the scheduler's
+// attester wait mixes time.Until with the scheduler clock, so a fake clock cannot drive it: Cfg "clock":"virt" runs the
+// scheduler on the real clock API, which inside the synctest bubble is the bubble's virtual clock (genesis = bubble
+// time - start).  An Advance step then sleeps until that instant; every timer of the scheduler in between fires at
+// its own instant, and the recorder puts an Advance event in front of the first event of every new instant, so the
+// trace carries the exact virtual time of everything.  A head event "before the slot's tick" is a Head step at slot
+// start minus some ms, or one from inside schedSlotFunc.
+//
 // Every schedule runs inside a testing/synctest bubble: synctest.Wait() returns when every goroutine the scheduler
 // started (run loop, slot ticker, one goroutine per triggered duty, one per slot subscriber) is durably blocked,
 // which is the quiescence barrier the driver needs -- nothing is ever asserted by sleeping.
@@ -15,7 +26,9 @@
 //	SlotSub  slot subscriber called
 //	Call     a request of the scheduler to its beacon client with the answer it got
 //	Delay    delayFunc called: the deadline the scheduler wants to wait for before triggering
-//	Trigger  duty subscriber called with the definition set
+//	Trigger  duty subscriber called with the definition set ("at": the scheduler clock at the call)
+//	Head     HandleHeadEvent about to be called (stimulus)
+//	FetchOnly the fetcher's FetchOnly called with the definition set
 package c15
 
 import (
@@ -42,7 +55,7 @@ import (
 	"verifharness/drv"
 )
 
-var genesis = time.Date(2022, 3, 1, 0, 0, 0, 0, time.UTC)
+var fakeGenesis = time.Date(2022, 3, 1, 0, 0, 0, 0, time.UTC)
 
 // client is the scheduler's beacon client: beaconmock.Mock's overridable functions carry the script; Spec is
 // answered locally (no HTTP inside the synctest bubble).
@@ -75,7 +88,11 @@ type massign struct {
 type env struct {
 	mu      sync.Mutex
 	tr      *drv.Tracer
-	clk     *clockwork.FakeClock
+	clk     clockwork.Clock
+	fclk    *clockwork.FakeClock // nil: the scheduler runs on the bubble's virtual clock
+	genesis time.Time
+	emu     sync.Mutex
+	lastMs  int
 	s       int
 	slotDur time.Duration
 	vals    []mval
@@ -137,7 +154,24 @@ func (e *env) failNow() bool {
 }
 
 func (e *env) wallEpoch() int {
-	return int(e.clk.Since(genesis)/e.slotDur) / e.s
+	return int(e.clk.Since(e.genesis)/e.slotDur) / e.s
+}
+
+func (e *env) nowMs() int {
+	return int(e.clk.Since(e.genesis) / time.Millisecond)
+}
+
+// emit records one event; on the virtual clock the first event of a new instant is preceded by an Advance event.
+func (e *env) emit(st drv.Step) {
+	e.emu.Lock()
+	defer e.emu.Unlock()
+	if e.fclk == nil {
+		if t := e.nowMs(); t > e.lastMs {
+			e.lastMs = t
+			e.tr.Emit(drv.Step{"ev": "Advance", "to": t})
+		}
+	}
+	e.tr.Emit(st)
 }
 
 var errScripted = errors.New("scripted beacon node failure")
@@ -257,7 +291,7 @@ func (e *env) logVals(c eth2wrap.CompleteValidators, err error) {
 		resp = append(resp, drv.Step{"v": e.idOfIdx(idx), "st": st, "act": int(v.Validator.ActivationEpoch)})
 	}
 	sort.Slice(resp, func(i, j int) bool { return resp[i]["v"].(string) < resp[j]["v"].(string) })
-	e.tr.Emit(drv.Step{"ev": "Call", "kind": "vals", "ok": err == nil, "resp": resp})
+	e.emit(drv.Step{"ev": "Call", "kind": "vals", "ok": err == nil, "resp": resp})
 }
 
 func (e *env) logDuties(kind string, ep eth2p0.Epoch, idxs []eth2p0.ValidatorIndex, resp []drv.Step, err error) {
@@ -269,7 +303,7 @@ func (e *env) logDuties(kind string, ep eth2p0.Epoch, idxs []eth2p0.ValidatorInd
 
 		return drv.Num(a["slot"]) < drv.Num(b["slot"])
 	})
-	e.tr.Emit(drv.Step{"ev": "Call", "kind": kind, "ep": int(ep), "idxs": e.idsOf(idxs), "ok": err == nil, "resp": resp})
+	e.emit(drv.Step{"ev": "Call", "kind": kind, "ep": int(ep), "idxs": e.idsOf(idxs), "ok": err == nil, "resp": resp})
 }
 
 func (e *env) attSteps(ds []*eth2v1.AttesterDuty) []drv.Step {
@@ -363,6 +397,17 @@ func TestExec(t *testing.T) {
 			} else {
 				featureset.DisableForT(t, featureset.DisableDutiesCache)
 			}
+			feat := drv.Str(s[0]["feat"])
+			if feat == "on" || feat == "both" {
+				featureset.EnableForT(t, featureset.FetchAttOnBlock)
+			} else {
+				featureset.DisableForT(t, featureset.FetchAttOnBlock)
+			}
+			if feat == "delay" || feat == "both" {
+				featureset.EnableForT(t, featureset.FetchAttOnBlockWithDelay)
+			} else {
+				featureset.DisableForT(t, featureset.FetchAttOnBlockWithDelay)
+			}
 			synctest.Test(t, func(t *testing.T) { runOne(t, tr, i, s) })
 		})
 	}
@@ -407,7 +452,21 @@ func runOne(t *testing.T, tr *drv.Tracer, sid int, sched []drv.Step) {
 		}
 	}
 	start := time.Duration(drv.Num(cfg["start"])) * time.Millisecond
-	e.clk = clockwork.NewFakeClockAt(genesis.Add(start))
+	feat := drv.Str(cfg["feat"])
+	if feat == "" {
+		feat = "off"
+	}
+	virt := drv.Str(cfg["clock"]) == "virt" || feat != "off"
+	if virt {
+		e.genesis = time.Now().Add(-start) // bubble time
+		e.clk = clockwork.NewRealClock()
+	} else {
+		e.genesis = fakeGenesis
+		e.fclk = clockwork.NewFakeClockAt(e.genesis.Add(start))
+		e.clk = e.fclk
+	}
+	e.lastMs = drv.Num(cfg["start"])
+	genesis := e.genesis
 	mode := drv.Str(cfg["mode"])
 
 	spec := map[string]any{"SECONDS_PER_SLOT": e.slotDur, "SLOTS_PER_EPOCH": uint64(e.s)}
@@ -491,31 +550,54 @@ func runOne(t *testing.T, tr *drv.Tracer, sid int, sched []drv.Step) {
 
 	ms := func(tm time.Time) int { return int(tm.Sub(genesis) / time.Millisecond) }
 	delay := func(d core.Duty, deadline time.Time) <-chan time.Time {
-		tr.Emit(drv.Step{"ev": "Delay", "slot": int(d.Slot), "type": tyName(d.Type), "dl": ms(deadline)})
+		e.emit(drv.Step{"ev": "Delay", "slot": int(d.Slot), "type": tyName(d.Type), "dl": ms(deadline)})
 		ch := make(chan time.Time, 1)
 		ch <- deadline
 
 		return ch
 	}
-	schedSlot := func(_ context.Context, slot core.Slot) {
-		tr.Emit(drv.Step{"ev": "Sched", "slot": int(slot.Slot), "time": ms(slot.Time)})
+	var s *scheduler.Scheduler
+	head := func(ctx context.Context, slot int) {
+		e.emit(drv.Step{"ev": "Head", "slot": slot})
+		s.HandleHeadEvent(ctx, eth2p0.Slot(slot), eth2p0.Root{0x01, byte(slot)}, "http://bn")
+	}
+	atSched := map[int][]int{} // slot being scheduled -> slots of the head events delivered from schedSlotFunc
+	if l, ok := cfg["hs"].([]any); ok {
+		for _, x := range l {
+			m := x.(map[string]any)
+			atSched[drv.Num(m["at"])] = append(atSched[drv.Num(m["at"])], drv.Num(m["slot"]))
+		}
+	}
+	schedSlot := func(ctx context.Context, slot core.Slot) {
+		e.emit(drv.Step{"ev": "Sched", "slot": int(slot.Slot), "time": ms(slot.Time)})
+		for _, n := range atSched[int(slot.Slot)] {
+			head(ctx, n)
+		}
 	}
 
-	rcfg := drv.Step{}
-	for _, k := range []string{"S", "slotms", "start", "vals", "att", "pro", "sync", "mode", "fails"} {
-		rcfg[k] = cfg[k]
+	rcfg := drv.Step{"feat": feat, "clock": map[bool]string{true: "virt", false: "fake"}[virt]}
+	for _, k := range []string{"S", "slotms", "start", "vals", "att", "pro", "sync", "mode", "fails", "fo", "hs"} {
+		if v, ok := cfg[k]; ok {
+			rcfg[k] = v
+		}
 	}
 	tr.Emit(drv.Step{"ev": "Reset", "sid": sid, "cfg": rcfg})
 
-	s := scheduler.NewForT(t, e.clk, delay, nil, cl, schedSlot, false)
+	s = scheduler.NewForT(t, e.clk, delay, nil, cl, schedSlot, false)
 	s.SubscribeSlots(func(_ context.Context, slot core.Slot) error {
-		tr.Emit(drv.Step{"ev": "SlotSub", "slot": int(slot.Slot)})
+		e.emit(drv.Step{"ev": "SlotSub", "slot": int(slot.Slot)})
 		return nil
 	})
 	s.SubscribeDuties(func(_ context.Context, d core.Duty, set core.DutyDefinitionSet) error {
-		tr.Emit(drv.Step{"ev": "Trigger", "slot": int(d.Slot), "type": tyName(d.Type), "defs": e.defSteps(set)})
+		e.emit(drv.Step{"ev": "Trigger", "slot": int(d.Slot), "type": tyName(d.Type), "defs": e.defSteps(set), "at": e.nowMs()})
 		return nil
 	})
+	if cfg["fo"] != false {
+		s.RegisterFetcherFetchOnly(func(_ context.Context, d core.Duty, set core.DutyDefinitionSet, _ string, _ eth2p0.Root) error {
+			e.emit(drv.Step{"ev": "FetchOnly", "slot": int(d.Slot), "type": tyName(d.Type), "defs": e.defSteps(set)})
+			return nil
+		})
+	}
 	done := make(chan error, 1)
 	go func() { done <- s.Run() }()
 	synctest.Wait()
@@ -525,17 +607,30 @@ func runOne(t *testing.T, tr *drv.Tracer, sid int, sched []drv.Step) {
 		case "Advance":
 			to := time.Duration(drv.Num(st["to"])) * time.Millisecond
 			by := genesis.Add(to).Sub(e.clk.Now())
+			if virt {
+				// virtual clock: sleep until that instant (timers in between fire at their own instants and the recorder
+				// logs those instants); a target that is not ahead is skipped
+				if by > 0 {
+					time.Sleep(by)
+				}
+				synctest.Wait()
+
+				continue
+			}
 			if by <= 0 {
 				t.Fatalf("schedule %d: clock must move forward (to=%v)", sid, to)
 			}
-			tr.Emit(drv.Step{"ev": "Advance", "to": drv.Num(st["to"])})
-			e.clk.Advance(by)
+			e.emit(drv.Step{"ev": "Advance", "to": drv.Num(st["to"])})
+			e.fclk.Advance(by)
+			synctest.Wait()
+		case "Head":
+			head(context.Background(), drv.Num(st["slot"]))
 			synctest.Wait()
 		default:
 			t.Fatalf("unknown step %v", st)
 		}
 	}
-	tr.Emit(drv.Step{"ev": "End"})
+	e.emit(drv.Step{"ev": "End"})
 	s.Stop()
 	<-done
 	synctest.Wait() // stragglers after the end would be logged behind End: no spec step matches them
